@@ -764,7 +764,7 @@ def values(tn, op, variant):
     raise core.HarnessError("no values for %s %s" % (tn, op))
 
 
-CONFIGS = {"2x1": (2, 1), "2x2": (2, 2), "3x1": (3, 1), "1x2": (1, 2)}
+CONFIGS = {"2x1": (2, 1), "2x2": (2, 2), "3x1": (3, 1), "1x2": (1, 2), "3x2": (3, 2)}
 
 
 def make_program(tn, form, op, cfg, variant, bound, partner=None):
@@ -824,36 +824,38 @@ MIXED = [("add", "xchg"), ("add", "cas_s"), ("or", "and"), ("xchg", "cas_s"), ("
 
 
 def plan(tier):
-    """All programs of a tier.  bound -1 = every schedule."""
+    """All programs of a tier.  bound -1 = every schedule (no preemption bound)."""
     progs = []
     types = [t[0] for t in TYPES]
+    quick = tier == "quick"
     for tn in types:
         for form in FORMS + AUTO_FORMS:
             for op in ops_for(tn):
-                variants = (0, 1, 2)
-                for v in variants:
-                    if tier == "quick":
-                        cfgs = [("1x2", -1), ("2x1", -1)]
-                        if v == 0:
-                            cfgs += [("2x2", 2), ("3x1", 2)] if form not in AUTO_FORMS else [("3x1", 1)]
+                for v in (0, 1, 2):
+                    if quick:
+                        cfgs = [("1x2", -1), ("2x1", -1), ("2x2", -1 if v == 0 else 2), ("3x1", 3 if v == 0 else 2)]
                     else:
                         cfgs = [("1x2", -1), ("2x1", -1), ("2x2", -1), ("3x1", -1)]
+                        if v == 0 and tn in ("i1", "u2", "i4", "u8", "p8") and form in ("deref", "global", "pmember"):
+                            cfgs.append(("3x2", 3))
                     for cfg, b in cfgs:
                         if form in AUTO_FORMS and CONFIGS[cfg][1] > 1:
                             continue                      # the parent body performs exactly one operation
                         p = make_program(tn, form, op, cfg, v, b)
                         if p:
                             progs.append(p)
-    for tn in ("i1", "i4", "u8") if tier == "quick" else [t for t in types if TINFO[t][4] == "int"]:
-        for form in ("deref", "pmember") if tier == "quick" else FORMS:
+    for tn in ("i1", "i4", "u8") if quick else [t for t in types if TINFO[t][4] == "int"]:
+        for form in ("deref", "pmember") if quick else FORMS:
             for a, b in MIXED:
                 for x, y in ((a, b), (b, a)):
-                    for cfg, bd in ([("2x1", -1), ("3x1", 2)] if tier == "quick" else [("2x1", -1), ("2x2", -1), ("3x1", -1)]):
+                    for cfg, bd in ([("2x1", -1), ("2x2", 2), ("3x1", 2)] if quick else [("2x1", -1), ("2x2", -1), ("3x1", -1)]):
                         p = make_program(tn, form, x, cfg, 0, bd, partner=y)
                         if p:
                             progs.append(p)
-    for cfg, b in ([("1x2", -1), ("2x1", -1), ("2x2", 2), ("3x1", 2)] if tier == "quick" else
-                   [("1x2", -1), ("2x1", -1), ("2x2", -1), ("3x1", -1)]):
+    # Treiber push: the nodes live in the shared arena, every node access is a scheduling point (3 threads are
+    # explored with a preemption bound only)
+    for cfg, b in ([("1x2", -1), ("2x1", -1), ("2x2", 3), ("3x1", 3)] if quick else
+                   [("1x2", -1), ("2x1", -1), ("2x2", -1), ("3x1", 5), ("3x2", 2)]):
         progs.append(treiber_program(cfg, b))
     return progs
 
@@ -863,7 +865,10 @@ def plan(tier):
 # =====================================================================================================
 def _run_batch(args):
     binary, lines, timeout = args
-    st, out, err = core.run_limited([binary], input=("\n".join(lines) + "\n").encode(), timeout=timeout, cpu=None, mem=None)
+    st, out, err = core.run_limited([binary, "%d" % max(1, timeout)], input=("\n".join(lines) + "\n").encode(),
+                                    timeout=timeout + 30, cpu=None, mem=None)
+    if isinstance(out, bytes):
+        out, err = out.decode("utf-8", "replace"), err.decode("utf-8", "replace")
     return st, out, err
 
 
@@ -886,30 +891,68 @@ def parse_output(out):
         elif line.startswith("E ") and cur is not None:
             cur["trace"].append(line)
         elif line.startswith("END "):
+            if cur is not None:
+                cur["complete"] = True
             cur = None
     return res
 
 
+def _explore_batch(args):
+    """Worker: run one batch of programs and judge every distinct history.  Returns a summary (picklable)."""
+    binary, progs, opidx, objidx, timeout = args
+    st, out, err = _run_batch((binary, [program_line(p, opidx, objidx) for p in progs], timeout))
+    summ = {"status": st, "error": None, "timed_out": st == "timeout" or "\nTIMEOUT " in out, "done": [],
+            "schedules": 0, "decisions": 0, "validated": 0, "distinct": 0, "by_pre": {}, "by_cfg": {}, "cas_failed": 0,
+            "livelocks": 0, "bad": {}, "nbad": {}, "samples": []}
+    if st != "timeout" and (st != 0 or "HARNESS-ERROR" in out):
+        m = re.search(r"HARNESS-ERROR.*", out)
+        summ["error"] = "explorer failed (status %s): %s %s" % (st, m.group(0) if m else "", err[-300:])
+        return summ
+    byid = {p["id"]: p for p in progs}
+    for pid, r in parse_output(out).items():
+        if not r.get("complete"):
+            continue
+        p = byid[pid]
+        summ["done"].append(pid)
+        n = int(r["stats"]["schedules"])
+        summ["schedules"] += n
+        summ["decisions"] += int(r["stats"]["decisions"])
+        summ["validated"] += int(r["stats"]["validated"])
+        summ["livelocks"] += int(r["stats"]["livelocks"])
+        summ["by_cfg"][p["cfg"]] = summ["by_cfg"].get(p["cfg"], 0) + n
+        for kv in r["stats"]["by_pre"].strip(",").split(","):
+            k, v = kv.split(":")
+            summ["by_pre"][int(k)] = summ["by_pre"].get(int(k), 0) + int(v)
+        summ["distinct"] += len(r["hist"])
+        for h in r["hist"]:
+            if p["op"].startswith("cas") and re.search(r"r\d\.\d=0:", h[4]):
+                summ["cas_failed"] += h[0]
+            dev = judge(p, h[4])
+            if dev:
+                sig = sig_of(p, dev)
+                summ["nbad"][sig] = summ["nbad"].get(sig, 0) + h[0]
+                key = (h[1], len(h[3]), p["id"])
+                if sig not in summ["bad"] or key < summ["bad"][sig][3]:
+                    summ["bad"][sig] = (p, dev, h, key)
+        if len(summ["samples"]) < 1 and r["hist"]:
+            summ["samples"].append({"program": pid, "init": p["init"],
+                                    "threads": [[(o["fn"], o["arg"], o["exp"]) for o in th] for th in p["threads"]],
+                                    "schedules": n, "by_preemptions": r["stats"]["by_pre"],
+                                    "histories": [{"count": h[0], "min_preemptions": h[1], "schedule": h[3], "history": h[4]}
+                                                  for h in sorted(r["hist"], key=lambda h: -h[1])[:2]]})
+    return summ
+
+
 def explore(binary, progs, opidx, objidx, nbatches, timeout):
-    """Shard programs (heaviest first, round-robin) over processes.  -> results, harness error text or None"""
+    """Shard programs (heaviest first, round-robin) over processes; each worker explores and judges."""
     def weight(p):
         n, k = CONFIGS[p["cfg"]]
-        return (n * k) ** 3 * (1 if p["bound"] >= 0 else 8)
+        return (n * k) ** 3 * (1 if p["bound"] >= 0 else 8) * (50 if p["form"] == "treiber" else 1)
     order = sorted(range(len(progs)), key=lambda i: (-weight(progs[i]), progs[i]["id"]))
     batches = [[] for _ in range(nbatches)]
     for j, i in enumerate(order):
-        batches[j % nbatches].append(program_line(progs[i], opidx, objidx))
-    outs = core.pmap(_run_batch, [(binary, b, timeout) for b in batches if b])
-    results = {}
-    timed_out = False
-    for st, out, err in outs:
-        if st == "timeout":
-            timed_out = True
-        elif st != 0 or "HARNESS-ERROR" in out:
-            m = re.search(r"HARNESS-ERROR.*", out)
-            return results, "explorer failed (status %s): %s %s" % (st, m.group(0) if m else "", err[-300:]), timed_out
-        results.update(parse_output(out))
-    return results, None, timed_out
+        batches[j % nbatches].append(progs[i])
+    return core.pmap(_explore_batch, [(binary, b, opidx, objidx, timeout) for b in batches if b])
 
 
 REPLAY_SH = """python3 "$VERIF/checks/c16.py" --replay case.json"""
@@ -1012,50 +1055,47 @@ def run(ctx):
     byid = {p["id"]: p for p in progs}
     if len(byid) != len(progs):
         raise core.HarnessError("duplicate program ids")
-    timeout = max(30, ctx.time_left() - 60)
-    results, herr, timed_out = explore(binary, progs, opidx, objidx, core.NPROC * 4, timeout)
-    if herr:
-        raise core.HarnessError(herr)
-    if timed_out or len(results) < len(progs):
-        ctx.incomplete("deadline: %d of %d programs explored" % (len(results), len(progs)))
-
-    # ---- judge ------------------------------------------------------------------------------------
-    schedules = decisions = validated = distinct = 0
-    by_pre = {}
-    cfgcount = {}
-    cas_failed = retried = 0
-    bad = {}                      # sig -> (prog, dev, witness)
-    nbad = {}
-    for pid in sorted(results):
-        r, p = results[pid], byid[pid]
-        schedules += int(r["stats"]["schedules"])
-        decisions += int(r["stats"]["decisions"])
-        validated += int(r["stats"]["validated"])
-        cfgcount[p["cfg"]] = cfgcount.get(p["cfg"], 0) + int(r["stats"]["schedules"])
-        for kv in r["stats"]["by_pre"].strip(",").split(","):
-            k, v = kv.split(":")
-            by_pre[int(k)] = by_pre.get(int(k), 0) + int(v)
-        distinct += len(r["hist"])
-        for h in r["hist"]:
-            if p["op"].startswith("cas") and re.search(r"r\d\.\d=0:", h[4]):
-                cas_failed += h[0]
-            dev = judge(p, h[4])
-            if dev:
-                sig = sig_of(p, dev)
-                nbad[sig] = nbad.get(sig, 0) + h[0]
-                key = (h[1], len(h[3]), p["id"])
-                if sig not in bad or key < bad[sig][3]:
-                    bad[sig] = (p, dev, h, key)
-        if family(p["op"]) in ("compound", "casloop", "push") and int(r["stats"]["maxdepth"]) > 0:
-            pass
+    timeout = int(max(30, ctx.time_left() - 90))
+    summs = explore(binary, progs, opidx, objidx, core.NPROC * 4, timeout)
+    for sm in summs:
+        if sm["error"]:
+            raise core.HarnessError(sm["error"])
+    done = set()
+    schedules = decisions = validated = distinct = cas_failed = livelocks = 0
+    by_pre, cfgcount, bad, nbad = {}, {}, {}, {}
+    timed_out = False
+    for sm in summs:
+        done.update(sm["done"])
+        timed_out = timed_out or sm["timed_out"]
+        schedules += sm["schedules"]; decisions += sm["decisions"]; validated += sm["validated"]
+        distinct += sm["distinct"]; cas_failed += sm["cas_failed"]; livelocks += sm["livelocks"]
+        for k, v in sm["by_pre"].items():
+            by_pre[k] = by_pre.get(k, 0) + v
+        for k, v in sm["by_cfg"].items():
+            cfgcount[k] = cfgcount.get(k, 0) + v
+        for sig, v in sm["nbad"].items():
+            nbad[sig] = nbad.get(sig, 0) + v
+        for sig, w in sm["bad"].items():
+            if sig not in bad or w[3] < bad[sig][3]:
+                bad[sig] = w
+    if timed_out or len(done) < len(progs):
+        ctx.incomplete("deadline: %d of %d programs explored completely" % (len(done), len(progs)))
     if schedules == 0 or distinct < 2:
         raise core.HarnessError("vacuous exploration: %d schedules, %d distinct histories" % (schedules, distinct))
-    if not herr and not timed_out and cas_failed == 0:
+    if not timed_out and cas_failed == 0:
         raise core.HarnessError("vacuous: no schedule in which a compare-exchange failed")
     if by_pre.get(1, 0) == 0:
         raise core.HarnessError("vacuous: no schedule with a preemption")
 
-    # ---- report, with per-violation determinism proof (two independent processes, identical event trace) ----
+    # A mixed program (two different operations) whose deviation class is already reported for one of its
+    # operations alone, on the same lvalue form, has the same root cause: counted, not reported again.
+    implied = 0
+    for sig in sorted(bad):
+        p, dev = bad[sig][0], bad[sig][1]
+        if p["partner"] and any(sig_of({"op": o, "partner": None, "form": p["form"]}, dev) in bad for o in (p["op"], p["partner"])):
+            implied += nbad[sig]
+            del bad[sig]
+    ctx.cover(violating_schedules_in_mixed_programs_implied_by_single_op_class=implied)
     for sig in sorted(bad):
         p, dev, h, _ = bad[sig]
         rwd = os.path.join(wd, "v_%d" % len(os.listdir(wd)))
@@ -1080,15 +1120,12 @@ def run(ctx):
                       files=replay_files(p, sig, dev, h, src, asm, rw, r1["trace"]), replay=REPLAY_SH)
         # ctx.violation counts one case per call; make the count meaningful
     ctx.cover(states=schedules, transitions=decisions, traces_validated_against_impl=validated,
-              programs=len(results), distinct_histories_judged=distinct,
+              programs=len(done), distinct_histories_judged=distinct, livelocked_schedules=livelocks,
               schedules_by_preemptions={str(k): by_pre[k] for k in sorted(by_pre)}, schedules_by_config=cfgcount,
               schedules_with_failed_cas=cas_failed, violating_schedules_by_sig=nbad)
-    some = [p for p in progs if p["id"] in results][:: max(1, len(results) // 5)][:5]
-    for p in some:
-        r = results[p["id"]]
-        ctx.sample({"program": p["id"], "threads": [[(o["fn"], o["arg"], o["exp"]) for o in th] for th in p["threads"]],
-                    "init": p["init"], "schedules": int(r["stats"]["schedules"]), "by_preemptions": r["stats"]["by_pre"],
-                    "histories": [{"count": h[0], "min_preemptions": h[1], "schedule": h[3], "history": h[4]} for h in r["hist"][:3]]})
+    for sm in summs[:: max(1, len(summs) // 5)][:5]:
+        for x in sm["samples"]:
+            ctx.sample(x)
     ctx.assume("the scheduler is sequentially consistent: every instruction executes indivisibly and becomes visible "
                "at once; x86-TSO store-buffer effects are not modelled")
     ctx.assume("scheduling points: every access that touches the atomic object or lies outside the running virtual "
